@@ -20,8 +20,6 @@ NA = {
 }
 
 PENDING = {
-    "C15": "claimed in DESIGN.md (alias-sim); check not built yet",
-    "C17": "claimed in DESIGN.md (mpi-sim); check not built yet",
 }
 
 CHECKS = {
@@ -42,6 +40,18 @@ CHECKS = {
         technique="deterministic simulation with the simulator owning the random source: a recording numpy Generator behind the rng= seam logs every draw, the log is replayed into an independent reference SDE integrator; tracker schedules that cut the run into segments are the schedule dimension",
         text="Real eq.solve runs (euler, milstein, implicit; numpy backend, numba backend in python mode) on grids with non-uniform cell volumes, all field ranks and collections, scalar/per-component/per-field/multiplicative variances and all noise interpretations. Checked: exactly one standard_normal(shape) per step and nothing else drawn, draws are the successive draws of the seeded bit generator, every per-step state equals the documented formula to 1e-12, bit-identical reproducibility also under different tracker sets, zero variance = deterministic run with zero draws.",
         note="Reference integrator is ~20 lines of numpy written from the property text. Implicit solver checked for linear rates (closed-form fixed point). numba path: formula only (the property claims no bit reproducibility there).",
+    ),
+    "C15": dict(
+        engine="alias-sim", design_ref="DESIGN.md 4.7",
+        technique="deterministic simulation of several handles acting on shared memory: seeded histories of constructions, derived views, sentinel writes, in-place/binary/unary arithmetic, operators with out=, storage round trips, dropped handles + gc, checked after every operation against an executable buffer/handle memory model",
+        text="Up to 10 live handles (fields, collections, component views, raw arrays) over shadow buffers including ghost cells; after every operation every handle must show exactly the model's bytes, np.shares_memory must equal the model's alias relation for all pairs, operands of binary operations are unchanged, in-place operations touch valid cells only, out= returns out. Weakest fit of the family (sequential API, no clock, no fault): what the family contributes is the seeded multi-handle history with op-by-op reference model, replay and minimisation; an aliasing bug is an ordering bug between two handles.",
+        note="Model written from the documentation; where it is silent (does a field built from a user array with ghost cells alias it?) the relation is observed once and only numpy semantics are relied on afterwards. Arithmetic results are compared at 1e-9 then adopted; copies, assignments and sentinels bit for bit.",
+    ),
+    "C17": dict(
+        engine="mpi-sim", design_ref="DESIGN.md 4.8",
+        technique="deterministic simulation of MPI ranks: the real GridMesh/_MPIBC/NumbaMPIBackend/ExplicitMPISolver code run by 2-6 forked rank processes over a fake mpi4py whose every call is granted by a seeded scheduler (who runs next, per-message delivery delay and cross-channel reordering, rank stalls after send-before-receive); result compared with the serial run on the undivided grid, deadlock and unreceived-message detection, bounded liveness",
+        text="Operator-level script (split_field_mpi, apply_operator through the interpreted exchange, the numba_mpi operator and the generated sender/setter chain with poisoned ghost cells, combine) and end-to-end script (eq.solve with solver=explicit_mpi incl. adaptive error allreduce, integral allreduce, collections, trackers on rank 0) on all grid classes, every admissible decomposition with 2-6 ranks incl. uneven and single-cell chunks and two chunks on a periodic axis. Oracles: combined result equals the undivided grid (bit-identical on UnitGrid), no deadlock under eager sends, every message received exactly once, mesh tiles the grid, split/combine identity with and without ghost cells, neighbour symmetry, link tags agree and are unique. Exploration: MPI programs without wildcard receives are schedule-deterministic unless they deadlock, so the schedule search mainly decides deadlock freedom and protocol consistency; the configuration search decides the rest.",
+        note="Transport model: reliable, eager, non-overtaking per (source,dest,tag); rendezvous sends, loss, duplication, crashes not modelled (not MPI semantics). mpi4py/numba_mpi are stubs; pde/backends/numba_mpi/overloads.py (compiled-only) is not exercised. Documented limitations (hollow cylinders, curvature on one-cell chunks, inhomogeneous constant conditions) are skipped by exact message match and counted.",
     ),
     "C20": dict(
         engine="storage-sim", design_ref="DESIGN.md 4.9",
